@@ -100,8 +100,18 @@ def main():
     except core.MachineryError as e:
         print("MACHINERY FAILURE in %s: %s" % (prop, e))
         return 2
-    except Exception:
+    except Exception as ex:
+        tb = traceback.extract_tb(ex.__traceback__)
+        inside = [f for f in tb if str(f.filename).startswith(str(core.REPO.resolve()) + "/") or str(f.filename).startswith(str(core.REPO) + "/")]
         traceback.print_exc()
+        if inside:
+            # the library itself raised on an input of the check's scope (it does not on the unchanged tree): that is a
+            # violation of the property for that input, not a failure of the machinery
+            f = inside[-1]
+            run.violation("library-raised:%s:%s" % (Path(f.filename).name, f.name),
+                          dict(error=repr(ex)[:300], where="%s:%s in %s" % (f.filename, f.lineno, f.name)),
+                          dict(kind="exception", traceback=traceback.format_exc()[-3000:]))
+            return run.finish()
         print("MACHINERY FAILURE in %s (harness exception)" % prop)
         return 2
     return run.finish()
